@@ -1,4 +1,140 @@
 import PbVerif.Model.JsonLex
+import PbVerif.Lemmas.JsonLexNumber
+/-
+C21 — protojson speaks exactly JSON.
+
+Statements are about `JsonLex.*` (Model/JsonLex.lean), the hand-written executable model of
+/repo/internal/encoding/json, tied to the Go code by the `jsonlex` correspondence harness, and about
+the RFC 8259 grammar `JsonLex.RFC.*` written from the RFC text.
+-/
 namespace C21
-open JsonLex
+open JsonLex JsonLex.RFC
+
+/-! ## Numbers (decode_number.go : parseNumber) -/
+
+/-- the last byte of `p` is a digit -/
+def EndsInDigit (p : Bytes) : Prop := ∃ c, p.getLast? = some c ∧ isDigit c = true
+
+theorem getLast?_append_of_ne_nil {α} (a : List α) {b : List α} (hb : b ≠ []) :
+    (a ++ b).getLast? = b.getLast? := by
+  rw [List.getLast?_append]
+  cases h : b.getLast? with
+  | none => exact absurd (List.getLast?_eq_none_iff.1 h) hb
+  | some c => simp
+
+theorem endsInDigit_append (a : Bytes) {b : Bytes} (hb : b ≠ []) :
+    EndsInDigit (a ++ b) ↔ EndsInDigit b := by
+  unfold EndsInDigit; rw [getLast?_append_of_ne_nil a hb]
+
+theorem endsInDigit_of_allDigits {ds : Bytes} (h : AllDigits ds) (hne : ds ≠ []) : EndsInDigit ds :=
+  ⟨ds.getLast hne, List.getLast?_eq_some_getLast hne, h _ (List.getLast_mem hne)⟩
+
+/-- every RFC 8259 number ends in a digit -/
+theorem number_endsInDigit {p : Bytes} (h : Number p) : EndsInDigit p := by
+  obtain ⟨m, i, f, e, hm, hi, hf, he⟩ := h
+  cases he with
+  | some e0 sg d ds he0 hsg hd hds =>
+    have : m ++ (i ++ (f ++ e0 :: (sg ++ d :: ds))) = (m ++ (i ++ (f ++ e0 :: sg))) ++ (d :: ds) := by simp
+    rw [this, endsInDigit_append _ (by simp)]
+    exact endsInDigit_of_allDigits (AllDigits.cons.2 ⟨hd, hds⟩) (by simp)
+  | none =>
+    cases hf with
+    | some d ds hd hds =>
+      have : m ++ (i ++ (0x2e#8 :: d :: ds ++ [])) = (m ++ (i ++ [0x2e#8])) ++ (d :: ds) := by simp
+      rw [this, endsInDigit_append _ (by simp)]
+      exact endsInDigit_of_allDigits (AllDigits.cons.2 ⟨hd, hds⟩) (by simp)
+    | none =>
+      have hid : AllDigits i ∧ i ≠ [] := by
+        cases hi with
+        | zero => exact ⟨by intro d hd; simp at hd; subst hd; decide, by simp⟩
+        | nonzero c ds hc hds => exact ⟨AllDigits.cons.2 ⟨digit19_digit c hc, hds⟩, by simp⟩
+      have : m ++ (i ++ ([] ++ [])) = m ++ i := by simp
+      rw [this, endsInDigit_append _ hid.2]
+      exact endsInDigit_of_allDigits hid.1 hid.2
+
+/-- a dangling exponent does not end in a digit -/
+theorem dangling_not_endsInDigit {m i f e : Bytes} (he : DanglingExp e) :
+    ¬ EndsInDigit (m ++ (i ++ (f ++ e))) := by
+  have key : ∀ x : Byte, (x = 0x65#8 ∨ x = 0x45#8 ∨ x = 0x2b#8 ∨ x = 0x2d#8) → isDigit x = false := by decide
+  cases he with
+  | mk e0 sg he0 hsg =>
+    have : m ++ (i ++ (f ++ e0 :: sg)) = (m ++ (i ++ f)) ++ (e0 :: sg) := by simp
+    rw [this, endsInDigit_append _ (by simp)]
+    rintro ⟨c, hc, hd⟩
+    cases hsg with
+    | none => simp at hc; subst hc; rw [key _ (by rcases he0 with h | h <;> simp [h])] at hd; cases hd
+    | plus => simp at hc; subst hc; rw [key _ (by simp)] at hd; cases hd
+    | minus => simp at hc; subst hc; rw [key _ (by simp)] at hd; cases hd
+
+/-- `parseNumber` accepts exactly: an RFC 8259 number, or an RFC number prefix `[-] int [frac]`
+followed by `e`/`E` and an optional sign *without digits* provided at least one more byte follows —
+in both cases the next byte, if any, must be a delimiter. -/
+theorem parseNumber_exact (s : Bytes) (n : Nat) :
+    parseNumber s = some n ↔
+      ∃ p rest, s = p ++ rest ∧ p.length = n ∧ DelimOK rest ∧ NumberLoose p rest :=
+  JsonLex.parseNumber_exact s n
+
+/-- What is accepted is a number exactly when it ends in a digit. -/
+theorem parseNumber_sound_iff (s : Bytes) (n : Nat) (h : parseNumber s = some n) :
+    Number (s.take n) ↔ EndsInDigit (s.take n) := by
+  obtain ⟨p, rest, rfl, rfl, _, hp⟩ := (parseNumber_exact s n).1 h
+  rw [List.take_left' rfl]
+  refine ⟨number_endsInDigit, fun hd => ?_⟩
+  obtain ⟨m, i, f, e, rest, hm, hi, hf, he⟩ := hp
+  rcases he with he | ⟨he, _⟩
+  · exact Number.mk m i f e hm hi hf he
+  · exact absurd hd (dangling_not_endsInDigit he)
+
+/- FULL STATEMENT (DESIGN.md §6 C21) — *false of the current code* (finding 4):
+     theorem parseNumber_sound : parseNumber s = some n → Number (s.take n)                     -/
+
+/-- The full soundness statement is false: `1e,` is accepted with length 2 and `1e` is not a number. -/
+theorem parseNumber_sound_false :
+    ¬ (∀ (s : Bytes) (n : Nat), parseNumber s = some n → Number (s.take n)) := by
+  intro h
+  have h1 : parseNumber [0x31#8, 0x65#8, 0x2c#8] = some 2 := by decide
+  have h2 := (parseNumber_sound_iff _ _ h1).1 (h _ _ h1)
+  obtain ⟨c, hc, hd⟩ := h2
+  simp at hc; subst hc; revert hd; decide
+
+/-- Soundness under the weakest hypothesis that excludes finding 4: the accepted prefix ends in a
+digit (by `parseNumber_sound_iff` nothing weaker will do). -/
+theorem parseNumber_sound_partial (s : Bytes) (n : Nat) (h : parseNumber s = some n)
+    (hd : EndsInDigit (s.take n)) : Number (s.take n) :=
+  (parseNumber_sound_iff s n h).2 hd
+
+example : parseNumber [0x2d#8, 0x31#8, 0x2e#8, 0x35#8, 0x65#8, 0x2b#8, 0x33#8, 0x7d#8] = some 7 ∧
+    EndsInDigit ([0x2d#8, 0x31#8, 0x2e#8, 0x35#8, 0x65#8, 0x2b#8, 0x33#8, 0x7d#8].take 7) :=
+  ⟨by decide, ⟨0x33#8, by decide, by decide⟩⟩
+
+/-- Completeness: an RFC 8259 number followed by a delimiter (or by nothing) is accepted whole. -/
+theorem parseNumber_complete (p rest : Bytes) (hp : Number p) (hd : DelimOK rest) :
+    parseNumber (p ++ rest) = some p.length := by
+  obtain ⟨m, i, f, e, hm, hi, hf, he⟩ := hp
+  exact (parseNumber_exact _ _).2 ⟨_, rest, rfl, rfl, hd, NumberG.mk m i f e rest hm hi hf (Or.inl he)⟩
+
+/-- … and nothing longer or shorter is: the accepted length is unique. -/
+theorem parseNumber_length_unique (p rest : Bytes) (hp : Number p) (hd : DelimOK rest) (n : Nat)
+    (h : parseNumber (p ++ rest) = some n) : n = p.length := by
+  rw [parseNumber_complete p rest hp hd] at h; exact (Option.some.inj h).symm
+
+/-- With the repair /verif/fixes/json-exponent-digits.diff applied (`parseNumberFixed`) soundness and
+completeness hold without hypothesis: the function accepts exactly the RFC 8259 numbers that are
+followed by a delimiter or the end of input. -/
+theorem parseNumberFixed_exact (s : Bytes) (n : Nat) :
+    parseNumberFixed s = some n ↔ ∃ p rest, s = p ++ rest ∧ p.length = n ∧ DelimOK rest ∧ Number p :=
+  JsonLex.parseNumberFixed_exact s n
+
+theorem parseNumberFixed_sound (s : Bytes) (n : Nat) (h : parseNumberFixed s = some n) :
+    Number (s.take n) := by
+  obtain ⟨p, rest, rfl, rfl, _, hp⟩ := (parseNumberFixed_exact s n).1 h
+  rwa [List.take_left' rfl]
+
+/-- the repair only removes the dangling-exponent inputs: on everything the repaired function
+accepts, the current one agrees -/
+theorem parseNumberFixed_le (s : Bytes) (n : Nat) (h : parseNumberFixed s = some n) :
+    parseNumber s = some n := by
+  obtain ⟨p, rest, rfl, rfl, hd, hp⟩ := (parseNumberFixed_exact s n).1 h
+  exact parseNumber_complete p rest hp hd
+
 end C21
